@@ -111,6 +111,9 @@ func agwpe.(*Conn).Read(c, p) (n, err)
   props C13
   ensures bounds: 0 <= n && n <= len(p)
   ensures rest-first: old(len(c.rest)) > 0 ==> err == nil && n == min(len(p), old(len(c.rest))) && len(c.rest) == old(len(c.rest)) - n
+  # end of stream is reported only when the frame queue is closed AND drained (a receive
+  # from it reported closed): frames queued before a disconnect are still delivered
+  at return requires eof-only-when-drained: $r1 == io.EOF ==> !ok
 
 # a frame that was read is never dropped (the non-blocking send's default branch)
 func agwpe.(*demux).Enqueue(d, f) (ok)
